@@ -103,9 +103,12 @@ def run(ctx):
     if not cov.get("AddField", (0, 0))[0]:
         raise ToolError("action AddField never fired: %s" % cov)
     # binding of the model: the serializer as originally written (a unit constant is one word) must be refuted
-    aw = ctx.tlc("MC_StorageLayout", "MC_StorageLayout_aswritten", workers=2, xss="64m", count=False)
-    if aw.violated != "InvReadBack":
-        raise ToolError("the as-written serializer (UnitWord = 1) was not refuted by TLC: %s" % aw.violated)
+    aw_violated = "not run in the quick tier"
+    if not ctx.quick:
+        aw = ctx.tlc("MC_StorageLayout", "MC_StorageLayout_aswritten", workers=2, xss="64m", count=False)
+        if aw.violated != "InvReadBack":
+            raise ToolError("the as-written serializer (UnitWord = 1) was not refuted by TLC: %s" % aw.violated)
+        aw_violated = aw.violated
     # 2. the conformance pool
     gen = ctx.tlc("MC_StorageLayout", "Gen_StorageLayout", workers=1, xss="64m", count=False)
     if gen.violated:
@@ -120,25 +123,27 @@ def run(ctx):
         raise ToolError("workspace failed to build/run: %s" % json.dumps(failures)[:6000])
     trs = [trace_record(r, built["c12d%d" % r["id"]]) for r in recs]
     byid = {r["id"]: r for r in recs}
-    # 4. trace validation
-    validated, rejected = validate(ctx, trs)
+    # 4. trace validation; the binding self-test rides along: corrupted copies of one record must be rejected
+    base = trs[len(trs) // 2]
+    muts = []
+    m = json.loads(json.dumps(base)); m["slots"][0]["v"][0] ^= 1; muts.append(m)          # a byte of a slot value
+    m = json.loads(json.dumps(base)); m["slots"][0]["k"][31] ^= 1; muts.append(m)         # a byte of a slot key
+    m = json.loads(json.dumps(base)); m["logs"][0][0] = m["logs"][0][0] + [0]; muts.append(m)   # a logged read
+    if not base["fields"][0]["key"]:                                                      # (implicit key: a hash is involved)
+        m = json.loads(json.dumps(base)); m["hashes"][0]["h"][0] ^= 1; muts.append(m)     # the hash of a pre-image
+    for m in muts:
+        m["mut"] = True
+    validated, rejected = validate(ctx, trs + muts)
+    mut_rej = [x for x in rejected if x[0].get("mut")]
+    rejected = [x for x in rejected if not x[0].get("mut")]
+    validated -= len(muts) - len(mut_rej)
     for tr, why in rejected:
         rec = byid[tr["id"]]
         ctx.report(decl_key(rec), "emitted slots / in-VM reads disagree with StorageLayout (%s)" % why,
                    {"record": tr, "source": render_contract(rec), "why": why})
-    # binding self-test: one corrupted slot byte, one corrupted log, one wrong hash must each be rejected
-    ok_trs = [t for t in trs if t["id"] not in {x[0]["id"] for x in rejected}]
-    selftest = 0
-    if ok_trs:
-        base = ok_trs[len(ok_trs) // 2]
-        muts = []
-        m = json.loads(json.dumps(base)); m["slots"][0]["v"][0] ^= 1; muts.append(m)
-        m = json.loads(json.dumps(base)); m["slots"][0]["k"][31] ^= 1; muts.append(m)
-        m = json.loads(json.dumps(base)); m["logs"][0][0] = m["logs"][0][0] + [0]; muts.append(m)
-        v, rej = validate(ctx, [base] + muts, name="selftest")
-        if v != 1 or sorted(id(x[0]) for x in rej) != sorted(id(m) for m in muts):
-            raise ToolError("binding self-test: %d of %d corrupted records were rejected" % (len(rej), len(muts)))
-        selftest = len(rej)
+    if not any(x[0] is base for x in rejected) and len(mut_rej) != len(muts):
+        raise ToolError("binding self-test: %d of %d corrupted records were rejected" % (len(mut_rej), len(muts)))
+    selftest = len(mut_rej)
     nreads = sum(len(p) for t in trs for p in t["reads"])
     sample = trs[0]
     return ctx.finish("model_checking", {
@@ -146,7 +151,7 @@ def run(ctx):
         "declarations_built_and_deployed": len(recs), "pool_size": len(pool),
         "storage_fields": sum(len(t["fields"]) for t in trs), "in_vm_reads": nreads,
         "slots_compared": sum(len(t["slots"]) for t in trs),
-        "aswritten_model_refuted_by": aw.violated, "binding_selftests_rejected": selftest,
+        "aswritten_model_refuted_by": aw_violated, "binding_selftests_rejected": selftest,
         "action_coverage": cov,
         "constants": {"UnitWord": 0, "configs": [r["cfg"] for r in ctx.tlc_runs if r["cfg"].startswith("MC_")]},
         "samples": [{"id": sample["id"], "storage": render_storage(byid[sample["id"]]["fields"], cg.TypeNamer()),
